@@ -65,6 +65,15 @@ Arith == {
   [c |-> "pick", index |-> 0], [c |-> "pick", index |-> 1], [c |-> "op", code |-> 34], [c |-> "op", code |-> 36],
   [c |-> "op", code |-> 19], [c |-> "op", code |-> 159], [c |-> "plus_uconst", v |-> B8(3)], [c |-> "piece", n |-> B8(2)] }
 
+(* directed sequences around the 16-bit branch displacement limit *)
+Blob(n) == [c |-> "implicit_value", data |-> [i \in 1..n |-> i % 251]]
+Far == { <<[c |-> "skip", target |-> 2], Blob(32763), [c |-> "constu", v |-> B8(1)]>>,      \* +32767: fits
+         <<[c |-> "skip", target |-> 2], Blob(32764), [c |-> "constu", v |-> B8(1)]>>,      \* +32768: too far
+         <<[c |-> "bra", target |-> 3], Blob(40000), [c |-> "op", code |-> 150]>>,
+         <<[c |-> "constu", v |-> B8(1)], Blob(32760), [c |-> "bra", target |-> 0]>>,       \* -32768: fits
+         <<[c |-> "constu", v |-> B8(1)], Blob(32761), [c |-> "skip", target |-> 0]>>,      \* -32769: too far
+         <<[c |-> "constu", v |-> B8(1)], Blob(32761), [c |-> "skip", target |-> 1]>> }     \* -32768 from op 1: fits
+
 Calls == CASE Slice = "core" -> Core \cup Branches
            [] Slice = "refs" -> Refs \cup {[c |-> "constu", v |-> B8(32)], [c |-> "skip", target |-> 0], [c |-> "bra", target |-> 2]}
            [] OTHER -> Arith \cup Branches
@@ -75,7 +84,9 @@ EncOf(e) == [asz |-> e \div 100, fmt |-> (e \div 10) % 10, ver |-> e % 10, le |-
 Init == /\ cs = <<>> /\ done = FALSE
         /\ cf \in {[enc |-> EncOf(e), ctx |-> x] : e \in Encs, x \in Ctxs}
 Next == /\ ~done
-        /\ \/ /\ Len(cs) < MaxLen
+        /\ \/ /\ Slice = "far" /\ cs = <<>> /\ \E q \in Far : cs' = q
+              /\ UNCHANGED <<cf, done>>
+           \/ /\ Slice # "far" /\ Len(cs) < MaxLen
               /\ \E k \in Calls : cs' = Append(cs, k)
               /\ UNCHANGED <<cf, done>>
            \/ /\ cs # <<>> /\ done' = TRUE /\ UNCHANGED <<cs, cf>>
@@ -83,7 +94,7 @@ Next == /\ ~done
 (* a finished sequence is well-formed when every branch target is an index <= Len and not itself *)
 WellFormed == \A i \in DOMAIN cs : cs[i].c \in {"skip", "bra"} => cs[i].target <= Len(cs) /\ cs[i].target # i - 1
 
-MustFail == TooLong(cs, cf.enc) \/ (cf.ctx = "cfi" /\ HasRef(cs))
+MustFail == TooLong(cs, cf.enc) \/ BranchTooFar(cs, cf.enc, NumRes) \/ (cf.ctx = "cfi" /\ HasRef(cs))
 MayFail  == Forward(cs)
 
 RECURSIVE MeanSeq(_, _, _)
@@ -92,7 +103,7 @@ MeanSeq(s, enc, res) == [i \in DOMAIN s |->
     ELSE Mean(s[i], enc, res)]
 
 (* design-level theorem on the specification's own emission *)
-Theorem == (done /\ WellFormed /\ ~TooLong(cs, cf.enc)) =>
+Theorem == (done /\ WellFormed /\ ~TooLong(cs, cf.enc) /\ ~BranchTooFar(cs, cf.enc, NumRes)) =>
     LET b == EmitSeq(cs, cf.enc, NumRes, 0) IN
     /\ Matches(cs, b, cf.enc, NumRes)
     /\ PredictedSize(cs, cf.enc, NumRes) = Len(b)
